@@ -1,6 +1,6 @@
 SPECIFICATION Spec
 CONSTANTS FRAG = 3
-  Runs = { "s_leaf", "s_ids4", "s_idsb2", "s_mid_a2", "s_mid_b2", "s_top2", "s_top_h" }
+  Runs = { "s_leaf", "s_ids4", "s_idsb2", "s_mid_a2", "s_mid_b2", "s_top2", "s_top_h", "s_mid_e", "s_top_e" }
 CONSTANT SchemaSource = "toy"
 INVARIANT StructRoundTrip
 INVARIANT Canonical
